@@ -1,22 +1,28 @@
 #!/bin/bash
 # usage: neutral.sh [neutral-dir ...]
 # Behaviour-preserving variants: every property's quick check must stay silent. Uses scratch worktrees; /repo is untouched.
+# Each variant tree is loaded once and all twenty properties are judged on it (mqttcheck -allprops; same verdicts as twenty
+# separate runs, see DESIGN.md 9.1). MQTTCHECK_BIN overrides the binary (default: /verif/bin/mqttcheck, rebuilt first).
 export GOFLAGS=-mod=mod GOPROXY=off GOSUMDB=off GOTOOLCHAIN=local
-(cd /verif/checker && go build -o /verif/bin/mqttcheck .) || exit 2
+if [ -z "$MQTTCHECK_BIN" ]; then
+  (cd /verif/checker && go build -o /verif/bin/mqttcheck .) || exit 2
+  export MQTTCHECK_BIN=/verif/bin/mqttcheck
+fi
 dirs="$@"; [ -z "$dirs" ] && dirs=$(ls -d /verif/neutral/*/)
-props="C01 C02 C03 C04 C05 C06 C07 C08 C09 C10 C11 C12 C13 C14 C15 C16 C17 C18 C19 C20"
 one() {
   d="$1"; id=$(basename "$d")
   wt="/tmp/nx-$id"; rm -rf "$wt"
-  git -C /repo worktree add -q --detach "$wt" HEAD 2>/dev/null || { echo "$id: worktree failed"; return; }
+  for try in 1 2 3 4 5; do git -C /repo worktree add -q --detach "$wt" HEAD 2>/dev/null && break; sleep 1; done  # (concurrent adds contend for a lock)
+  [ -d "$wt" ] || { echo "$id: worktree failed"; return; }
   if ! git -C "$wt" apply "$d/patch.diff" 2>/dev/null; then echo "$id: PATCH FAILS"; git -C /repo worktree remove --force "$wt"; return; fi
-  fired=""
-  for p in $props; do
-    out=$(/verif/bin/mqttcheck -property $p -repo "$wt" -verif "/tmp/nxv-$id" 2>&1) || { fired="$fired$p "; echo "$out" | grep -E "VIOLATED|UNDECIDED|ANCHOR-LOST|PANIC|LOAD" | head -4 | sed "s/^/      [$id] /" | cut -c1-330; }
-  done
+  out=$("$MQTTCHECK_BIN" -allprops -repo "$wt" -verif "/tmp/nxv-$id" 2>&1)
+  fired=$(echo "$out" | awk '/^ALLPROPS-END/ && $3 != 0 {printf "%s ", $2}')
+  n=$(echo "$out" | grep -c '^ALLPROPS-END')
+  [ "$n" = 20 ] || fired="$fired(incomplete:$n) "
+  [ -n "$fired" ] && echo "$out" | grep -E "VIOLATED|UNDECIDED|ANCHOR-LOST|PANIC|LOAD" | head -8 | sed "s/^/      [$id] /" | cut -c1-330
   git -C /repo worktree remove --force "$wt"; rm -rf "/tmp/nxv-$id"
   if [ -z "$fired" ]; then echo "$id: SILENT"; else echo "$id: FALSE ALARM in: $fired"; fi
 }
-export -f one; export props
-printf '%s\n' $dirs | xargs -P 5 -I{} bash -c 'one {}'
+export -f one
+printf '%s\n' $dirs | xargs -P 14 -I{} bash -c 'one {}'
 git -C /repo worktree prune
